@@ -1,33 +1,18 @@
 (* Re-serialisation: VerifyJSON's verdict depends on a value only up to member order and
-   number spelling.  normalise / jequiv are the definitions of C01 (Json/CanonFacts.v will
-   export the same; this copy goes away at integration).  The one fact taken from C01 is
-   canon_norm: canon_print (normalise v) = canon_print v, a Section hypothesis below. *)
+   number spelling.  normalise / jequiv are the definitions of C01 (Json/Render.v); the one fact
+   taken from C01 here is CanonFacts.canon_print_normalise:
+   canon_print (normalise v) = canon_print v. *)
 From Verif Require Import Lib.Bytes Json.Ast Json.Parse Json.Print Sign.Base64 Sign.Model Sign.Proofs.
+From Verif Require Export Json.Render.
+From Verif Require Import Json.CanonFacts.
 From Coq Require Import Sorting.Sorted.
 Open Scope N_scope.
 
 Definition map_vals {A B} (f : A -> B) (m : list (bytes * A)) : list (bytes * B) :=
   map (fun kv => (fst kv, f (snd kv))) m.
 
-Fixpoint normalise (j : json) : json :=
-  match j with
-  | JNum raw => JNum (print_number raw)
-  | JArr l => JArr (map normalise l)
-  | JObj m =>
-      JObj (sort_members ((fix go (m : list (bytes * json)) : list (bytes * json) :=
-                             match m with
-                             | [] => []
-                             | (k, v) :: m' => (k, normalise v) :: go m'
-                             end) m))
-  | _ => j
-  end.
-
-Definition jequiv (v v' : json) : Prop := normalise v = normalise v'.
-
 Lemma normalise_obj m : normalise (JObj m) = JObj (sort_members (map_vals normalise m)).
-Proof.
-  simpl. do 2 f_equal. induction m as [|[k v] m IH]; simpl; [reflexivity|]. rewrite IH. reflexivity.
-Qed.
+Proof. reflexivity. Qed.
 
 (* ---- order on keys ---- *)
 Lemma leb_total a b : bytes_leb a b = false -> bytes_leb b a = true.
@@ -283,16 +268,22 @@ Proof.
   apply D. unfold jequiv. congruence.
 Qed.
 
-Section Reserialise.
-  Hypothesis canon_norm : forall v, canon_print (normalise v) = canon_print v.
+(* stripping keeps well-formedness (json_wf: every number literal is grammatical) *)
+Lemma strip_wf v : json_wf v -> json_wf (strip v).
+Proof.
+  destruct v; try (intro H; exact H). unfold strip. rewrite !json_wf_obj, strip_members_as_filter.
+  intro H. rewrite Forall_forall in *. intros x Hx. apply filter_In in Hx. apply H. tauto.
+Qed.
 
+Section Reserialise.
   Context (verify : bytes -> bytes -> bytes -> bool) (sig_size_ok pk_size_ok : bytes -> bool).
   Notation verify_value := (verify_value verify sig_size_ok pk_size_ok).
 
   Theorem verify_value_normalise name kid p v :
     verify_value name kid p (normalise v) = verify_value name kid p v.
   Proof.
-    rewrite !(verify_value_spec verify sig_size_ok pk_size_ok), sig_at_normalise, strip_normalise, canon_norm.
+    rewrite !(verify_value_spec verify sig_size_ok pk_size_ok), sig_at_normalise, strip_normalise,
+      canon_print_normalise.
     reflexivity.
   Qed.
 
